@@ -189,7 +189,10 @@ func (am AppModule) EndBlock(ctx sdk.Context, _ abci.RequestEndBlock) []abci.Val
 	// TODO: for v1 use mode==1, just check the failed feeders
 	_, failed, sealed := agc.SealRound(ctx, forceSeal)
 	for _, feederID := range sealed {
-		am.keeper.RemoveNonceWithFeederIDForValidators(ctx, feederID, agc.GetValidators())
+		// remove the nonces of everybody, not only of the validators known to the aggregator now:
+		// when the validator set has just changed, a validator that left would otherwise keep its
+		// nonce entry for ever and could still get (fee-less) price transactions admitted.
+		am.keeper.RemoveNonceWithFeederIDForAll(ctx, feederID)
 	}
 	// append new round with previous price for fail-seal token
 	for _, tokenID := range failed {
